@@ -10,6 +10,7 @@ import (
 	"encoding/hex"
 	"encoding/json"
 	"fmt"
+	"net"
 	"time"
 
 	appserver "tunnox-core/internal/app/server"
@@ -181,8 +182,14 @@ type Client struct {
 }
 
 // Connect accepts a new in-memory connection whose RemoteAddr (as the server sees it) is remote ("ip:port").
-func (s *Server) Connect(remote string) (*Client, error) {
+func (s *Server) Connect(remote string) (*Client, error) { return s.ConnectFrom(remote, nil) }
+
+// ConnectFrom is Connect with the peer address given as a net.Addr value (when a is not nil).
+func (s *Server) ConnectFrom(remote string, a net.Addr) (*Client, error) {
 	near, far := vkit.NewBufConnPair(remote, "10.0.0.1:8000")
+	if a != nil {
+		far.SetRemoteAddr(a)
+	}
 	sc, err := s.SM.AcceptConnection(far, far)
 	if err != nil {
 		near.Close()
